@@ -137,6 +137,7 @@ class Side:
         self.dl_seen = 0
         self.ot_seen = 0
         self.silent = set()
+        self.timed = set()      # shared: ended for silence on either side
         self.step_tickets = []
 
     def do(self, a):
@@ -153,9 +154,15 @@ class Side:
         if a[1] >= len(R.S):
             return
         s = R.S[a[1]]
-        if s.n in self.silent and op in ('poll', 'up', 'upgrade', 'wsclose',
-                                         'vanish', 'weird', 'upgstep'):
-            return              # a client that went away does nothing more
+        if (s.n in self.silent or s.n in self.timed) and op in (
+                'poll', 'up', 'upgrade', 'wsclose', 'vanish', 'weird',
+                'upgstep', 'send', 'disc'):
+            if s.n in self.silent and op in ('send', 'disc'):
+                pass            # the application does not know it yet
+            else:
+                return          # a client that went away does nothing more;
+            #                     a session one side already ended for
+            #                     silence is left alone on both
         if not s.accepted:
             if op == 'weird':
                 pass
@@ -228,8 +235,11 @@ class Side:
                 s.man_state = 'probed'
             elif step == 'upgrade' and s.man_state == 'probed':
                 # like real clients: only once the in-flight poll returned
+                # (a poll left pending by the end of its session is released
+                # differently by the two servers - see DESIGN 5.3 - and must
+                # not steer the script)
                 sim.quiesce()
-                if [p for p in s.polls if not p.done]:
+                if [p for p in s.polls if not p.done] and not R.ended(s):
                     return
                 ws.send('5')
                 sim.quiesce()
@@ -260,9 +270,21 @@ class Side:
                 'POST', 'PUT') else None)
             self.step_tickets.append(t)
 
+    def timing_ended(self):
+        """Sessions whose end on this side was caused by silence (heartbeat
+        or poll deadline): instant and reason are not compared, only that the
+        other side ends them too within the bound."""
+        out = set()
+        for s in self.R.S:
+            for e in self.R.disconnects(s):
+                if e['reason'] in ('ping timeout', 'transport error'):
+                    out.add(s.n)
+        return out
+
     def silent_sidn(self):
-        return {self.sim.sidn(self.R.S[n].sid) for n in self.silent
-                if self.R.S[n].sid is not None}
+        return {self.sim.sidn(self.R.S[n].sid)
+                for n in self.silent | self.timed
+                if n < len(self.R.S) and self.R.S[n].sid is not None}
 
     def observe(self):
         sim, R = self.sim, self.R
@@ -314,6 +336,8 @@ def run_history(rec, case):
     def V(key, msg):
         rec.viol(key, msg + ' ; handlers %r' % (hcfg,),
                  dict(case, actions=acts[:80]))
+    timed_seen = set()
+    T.timed = A.timed = timed_seen
     try:
         for i, a in enumerate(acts):
             T.do(a)
@@ -334,6 +358,14 @@ def run_history(rec, case):
                 if stream == 'deliveries':
                     x = sorted(x, key=lambda e: e[0])
                     y = sorted(y, key=lambda e: e[0])
+                if stream == 'live':
+                    # a session that either side ended for silence (e.g. a
+                    # client idling in the middle of a handshake) is only
+                    # required to end on both sides within the bound
+                    timed = T.timing_ended() | A.timing_ended()
+                    timed_seen.update(timed)
+                    x = [e for e in x if e[0] not in timed]
+                    y = [e for e in y if e[0] not in timed]
                 if x != y:
                     V('diverge-%s-after-%s' % (stream, a[0] if a[0] != 'up'
                                                else 'post'),
@@ -346,7 +378,7 @@ def run_history(rec, case):
         A.sim.advance(PI + 3 * PT + PI + PT)
         for side in (T, A):
             side.sim.quiesce()
-        for n in T.silent:
+        for n in sorted(set(T.silent) | timed_seen):
             st, sa = T.R.S[n], A.R.S[n]
             if st.accepted and (not T.R.ended(st) or not A.R.ended(sa)):
                 V('silent-end-not-detected', 'silent session %d: ended on '
